@@ -46,14 +46,14 @@ def unused_index_cl(t, this='$this', lim='$0', for_leaf=False):
 
 def unused_loops(t):
     M = '$this->pointer_map'
-    l0 = ('__CPROVER_assigns(i)\n'
-          '__CPROVER_loop_invariant(i >= __CPROVER_loop_entry($this->counter) && MI(i) <= MI(max_val) + 1 && $this->counter == __CPROVER_loop_entry($this->counter))\n'
-          '__CPROVER_loop_invariant((g_k >= __CPROVER_loop_entry($this->counter) && g_k < i) ==> %s.present[g_k])\n'
-          '__CPROVER_decreases(MI(max_val) + 1 - MI(i))' % M)
-    l1 = ('__CPROVER_assigns(i)\n'
-          '__CPROVER_loop_invariant(i >= 1 && i <= $this->counter && $this->counter == __CPROVER_loop_entry($this->counter))\n'
-          '__CPROVER_loop_invariant((g_k >= 1 && g_k < i) ==> %s.present[g_k])\n'
-          '__CPROVER_decreases(MI($this->counter) - MI(i))' % M)
+    l0 = ('__CPROVER_assigns($LV)\n'
+          '__CPROVER_loop_invariant($LV >= __CPROVER_loop_entry($this->counter) && MI($LV) <= MI($0) + 1 && $this->counter == __CPROVER_loop_entry($this->counter))\n'
+          '__CPROVER_loop_invariant((g_k >= __CPROVER_loop_entry($this->counter) && g_k < $LV) ==> %s.present[g_k])\n'
+          '__CPROVER_decreases(MI($0) + 1 - MI($LV))' % M)
+    l1 = ('__CPROVER_assigns($LV)\n'
+          '__CPROVER_loop_invariant($LV >= 1 && $LV <= $this->counter && $this->counter == __CPROVER_loop_entry($this->counter))\n'
+          '__CPROVER_loop_invariant((g_k >= 1 && g_k < $LV) ==> %s.present[g_k])\n'
+          '__CPROVER_decreases(MI($this->counter) - MI($LV))' % M)
     return {('get_unused_index', 0): l0, ('get_unused_index', 1): l1}
 
 
